@@ -6,7 +6,7 @@ export PATH=/opt/veriftools/go1.26.8/bin:$PATH GOTOOLCHAIN=local GOPROXY=off GOS
 mkdir -p build .cache/gocache evidence
 export GOCACHE="$PWD/.cache/gocache"
 (cd harness && go build -o ../build/bandparse ./cmd/bandparse)
-python3 tools/gen_tables.py || true
+python3 tools/gen_tables.py
 (cd coq && coq_makefile -f _CoqProject -o Makefile >/dev/null && timeout 3000 make -j16 >../build/coq_build.log 2>&1) || { tail -30 build/coq_build.log; exit 1; }
 if grep -rnE '\b(Admitted|admit|Axiom|Parameter|Conjecture)\b' coq --include=*.v | grep -v '^\s*(\*' ; then echo "forbidden construct"; exit 1; fi
 echo setup ok
